@@ -892,10 +892,13 @@ where
             // dereferencing the cell pointer should be safe as well.
             unsafe {
                 let cell = self.item_at_offset(offset as u64);
-                let cell_ref = CellRef::from_raw(cell);
-                let size = cell_ref.total_size();
+                let size = CellRef::from_raw(cell).total_size();
                 destination_offset -= size as usize;
-                self.write_item_to_offset(destination_offset as u64, cell_ref);
+                // A cell may slide by less than its own size, so source and destination overlap:
+                // move the bytes (memmove) instead of re-writing header and content piecewise.
+                let src = cell.cast::<u8>().as_ptr() as *const u8;
+                let dst = self.data.byte_add(destination_offset).cast::<u8>().as_ptr();
+                std::ptr::copy(src, dst, size);
             }
             self.slot_array_mut()[i] = destination_offset as u16;
         }
